@@ -2,6 +2,7 @@ package c10
 
 import (
 	"fmt"
+	"strings"
 
 	"github.com/cloudwego/dynamicgo/proto/generic"
 
@@ -142,17 +143,36 @@ func domGroups(tier string) []group {
 							type variantT struct {
 								recurse, reuse bool
 								partner        []byte
+								lacks          string
 							}
-							variants := []variantT{{false, false, nil}, {true, false, nil}}
+							variants := []variantT{{false, false, nil, ""}, {true, false, nil, ""}}
 							for _, pb := range reusePartners(s, tier) {
-								variants = append(variants, variantT{false, true, pb}, variantT{true, true, pb})
+								variants = append(variants, variantT{false, true, pb, ""}, variantT{true, true, pb, ""})
 							}
+							// the reader holds an OLDER version of the file: every message lacks one field, whose values are
+							// unknown fields to Load and must come back out of Marshal unchanged
+							for _, w := range []string{"first", "middle", "last"} {
+								if strings.HasPrefix(s.ID, "bigid") {
+									break // dynamicgo's dense by-number table takes 4 GiB per parse of this file; one parse is all a worker affords
+								}
+								variants = append(variants, variantT{false, false, nil, w}, variantT{true, false, nil, w})
+							}
+							full := d
 							for _, variant := range variants {
 								partner := variant.partner
 								recurse := variant.recurse
 								mode := "lazy"
 								if recurse {
 									mode = "recursive"
+								}
+								d := full
+								if variant.lacks != "" {
+									mode += ",descriptor-lacks-" + variant.lacks + "-fields"
+									var perr error
+									if d, perr = s.Lacking(variant.lacks).Dyn(); perr != nil {
+										r.Add("NewDescritorFromContent|"+s.ID+"~lacks-"+variant.lacks+"|error", "%v", perr)
+										continue
+									}
 								}
 								if variant.reuse {
 									// non-initial start state: the same tree has loaded (recursively) the largest message of the
